@@ -210,13 +210,67 @@ func c07Body(r *vlib.Run) int {
 		crng := rand.New(rand.NewSource(seeds[i]))
 		fmu[fi].Lock() // one run at a time per fleet: the data directories are shared
 		defer fmu[fi].Unlock()
-		if (i/4)%3 == 2 {
+		switch {
+		case (i/4)%3 == 2:
 			c07TailRun(r, i, fl, crng)
-		} else {
+		case (i/4)%3 == 1 && i%2 == 0:
+			c07DirGlobRun(r, i, fl, crng)
+		default:
 			c07CatRun(r, i, fl, crng)
 		}
 	})
 	return n / 2
+}
+
+// c07DirGlobRun: files with the same base name in different directories,
+// requested by a glob with a wildcard directory, spelt in several equivalent
+// ways; the file identifier must tell the files of a host apart.
+func c07DirGlobRun(r *vlib.Run, i int, fl *fleet, rng *rand.Rand) {
+	nDirs := 2 + rng.Intn(4)
+	sub := fmt.Sprintf("dg%d", i)
+	for s := range fl.Servers {
+		for d := 0; d < nDirs; d++ {
+			var b bytes.Buffer
+			name := fmt.Sprintf("web%d", d)
+			for q := 1; q <= 50+rng.Intn(400); q++ {
+				b.WriteString(c07Line(fl.Servers[s].Spec.Name, name, q, 60+rng.Intn(100)))
+				b.WriteByte('\n')
+			}
+			fl.WriteFile(s, filepath.Join(sub, name, "app.log"), b.Bytes())
+		}
+	}
+	defer func() {
+		for s := range fl.Servers {
+			os.RemoveAll(filepath.Join(fl.Servers[s].Spec.Dir, sub))
+		}
+	}()
+	spellings := []string{sub + "/*/app.log", sub + "//*/app.log", "./" + sub + "/*/app.log", sub + "/web0/../*/app.log",
+		sub + "/./*/app.log", sub + "/*/app.log/", sub + "/web*/app.log", sub + "/*/*.log"}
+	spelling := spellings[rng.Intn(len(spellings))]
+	full := append(fl.ClientArgs(), "--logger", "stdout", "--logLevel", "error", "--noColor", "--files", spelling)
+	res := vlib.RunCmd(vlib.Cmd{Path: r.Bin("dcat"), Args: full, Env: fl.ClientEnv(), Dir: fl.Home, Watchdog: 240 * time.Second})
+	if res.TimedOut {
+		r.Inconclusive("client-watchdog")
+		return
+	}
+	ck := c07CheckOutput(res.Stdout, false, false)
+	key := ""
+	if len(ck.idOf) >= 2 {
+		key = fmt.Sprintf("dirglob|%d|%d|%s", len(fl.Servers), nDirs, spelling)
+	}
+	r.Eval(key)
+	r.SetAdd("glob_spelling", strings.Replace(spelling, sub, "<dir>", 1))
+	r.Count("lines_checked", ck.remote)
+	r.Count("dirglob_runs", 1)
+	if ck.err != "" || res.Panicked() || res.Hung {
+		r.Violation("output-line-invalid", map[string]interface{}{"why": ck.err, "line": ck.errLine, "servers": len(fl.Servers),
+			"glob": spelling, "dirs_per_server": nDirs, "exit": res.Exit, "hung": res.Hung, "stderr": vlib.Trunc(string(res.Stderr), 1000)})
+		return
+	}
+	if ck.remote > 0 && len(ck.idOf) != len(fl.Servers)*nDirs {
+		// not this property's business (delivery), but note it
+		r.Count("dirglob_runs_with_missing_sources", 1)
+	}
 }
 
 func c07CatRun(r *vlib.Run, i int, fl *fleet, rng *rand.Rand) {
